@@ -32,7 +32,7 @@ THEOREMS = [
     "C13_vectors_on_axis_and_everywhere", "C13_periodic_nearest_rounding_in_period_partial",
     "C13_periodic_binary64_fmod_core_exact", "C13_validation_policies_exact", "C13_point_and_lower_dimensional_samplers",
     "C13_mask_is_parity_of_triangle_fan", "C13_mask_triangle_is_point_in_triangle",
-    "C13_routing_table_means_model", "C13_sampler_loops_refine_specification", "C13_periodic_source_program_means_models", "C13_constructor_checks_mean_policies", "C13_sampler_range_checks_mean_policy", "C13_periodic_rounded_algorithm_close_to_exact", "C13_vector_cylindrical_rotation_everywhere",
+    "C13_routing_table_means_model", "C13_sampler_loops_refine_specification", "C13_periodic_source_program_means_models", "C13_constructor_checks_mean_policies", "C13_sampler_range_checks_mean_policy", "C13_periodic_rounded_algorithm_close_to_exact", "C13_periodic_binary64_inner_argument_in_period", "C13_mask_convex_polygon_contains_interior", "C13_mask_convex_polygon_excludes_exterior", "C13_clamp_binary64", "C13_vector_cylindrical_rotation_everywhere",
     "C13_linspace_even_with_both_end_points", "C13_sampler_entry_is_function_at_grid_point",
     "C13_mask_independent_of_vertex_order", "C13_mask_is_point_in_polygon_partial",
 ]
@@ -95,15 +95,26 @@ def run(ctx):
         "raysect triangulate2d / Discrete2DMesh (compared with the even-odd crossing test on points with margin)",
         "raysect autowrap_function*: a Python callable receives exactly the doubles the Cython wrapper passed",
     ]
+    ctx.trusted += [
+        "axioms under Print Assumptions of C13_periodic_binary64_inner_argument_in_period (all declared by Coq's standard library, none "
+        "of our own): FloatAxioms.{add,sub,opp,abs,eqb,ltb,leb,next_up,next_down,ldshiftexp,frshiftexp}_spec, FloatAxioms.Prim2SF_valid, "
+        "FloatAxioms.SF2Prim_Prim2SF, FloatAxioms.Prim2SF_SF2Prim (specification of the primitive binary64 operations), "
+        "Uint63.{add,sub,lsl,lsr,lor,ltb,leb}_spec, Uint63.of_to_Z, Uint63.eqb_refl, Uint63.eqb_correct (primitive 63-bit integers), "
+        "ClassicalDedekindReals.sig_forall_dec, ClassicalDedekindReals.sig_not_dec, Classical_Prop.classic, "
+        "FunctionalExtensionality.functional_extensionality_dep (the standard library's real numbers, used by Flocq 4.1.0)",
+        "Flocq 4.1.0 (Core rounding theory, IEEE754.BinarySingleNaN Bplus_correct / Bpred_correct / binary_normalize_correct, "
+        "IEEE754.PrimFloat add_equiv / next_down_equiv / ltb_equiv ...): a library of machine-checked proofs, no axioms of its own",
+    ]
     ctx.assumptions += [
         "wrapped functions are total and pure (the recorder has no influence on the arguments it is given)",
-        "the range theorem for the binary64 algorithm is proved for every monotone rounding that fixes 0 and the period "
-        "(true of IEEE round-to-nearest; that PrimFloat.add is such a rounding is trusted, the bit-exact model is tied by correspondence)",
+        "the range theorem for the binary64 algorithm is now a theorem about Coq's primitive floats (FloatAxioms + Flocq); what is still "
+        "assumed is that the machine's C fmod / addition / nextafter behave as IEEE-754 says (the bit-exact model is tied by correspondence)",
         "polygon vertices are distinct, the polygon is simple and not degenerate; mask values are compared at points at least "
         "2^-20 of the polygon size away from every edge",
     ]
     ctx.rebuild()
     ctx.proofs("Properties.C13", THEOREMS, extra_modules=("Model.C13_Check",))
+    ctx.log("proofs built, Print Assumptions of %d theorems checked" % len(THEOREMS))
 
     import cherab
     from common import REPO, coqc
@@ -818,6 +829,7 @@ def run(ctx):
               {"call": label, "raised": e, "recorded_outcome_of_unchanged_code": want}, e == want,
               "%s: recorded outcome %s, observed %s" % (label, want, e))
 
+    ctx.log("implementation run on %d cases" % len(C.coq))
     # ---- run the correspondence in Coq ---------------------------------------------------------------------------------------
     per_file = 250
     files = []
@@ -901,16 +913,18 @@ def run(ctx):
             ["routing table of 23 evaluate methods, argument checks of 23 __init__ methods, loop-nest descriptors of 14 samplers and the "
              "program of the inline remainder() of periodic.pxd, regenerated from the current .pyx/.pxd sources", "Model/C13_Table.v source_table / ctor_table / sampler_table / source_remainder", "syntactic equality, kernel-checked (coq/Gen/C13/Tie.v)"],
         ],
-        "partial": ["the range theorem 0 <= r < period for the binary64 algorithm is proved for any rounding that is round-to-nearest BY DEFINITION "
-                    "(and, separately, for any monotone rounding); the integer core of the binary64 fmod is proved exact; what is not derived is that "
-                    "PrimFloat.add is such a rounding (IEEE / FloatAxioms.add_spec + rounding theory, no Flocq available); the bit-exact PrimFloat model is tied by correspondence "
+        "partial": ["(closed in round 2: the range theorem 0 <= r < period on binary64 is proved for all finite x and finite p > 0 from FloatAxioms + "
+                    "Flocq, C13_periodic_binary64_inner_argument_in_period; the two abstract-rounding theorems are kept); the bit-exact PrimFloat model is tied by correspondence "
                     "and checked against the range claim on every periodic case",
                     "atan2 / cos / sin are oracles: theorems are stated for the rotation given by (x/r, y/r); the angle itself is checked only "
                     "for its quadrant and, through the rotated vector, within 2^-40",
                     "point-in-polygon is the even-odd crossing rule; crossing rule = geometric interior is proved for all triangles (either "
                     "orientation, points off the edge lines) and all rectangles, the crossing rule of any polygon is proved to be the parity of "
-                    "a fan of triangles and invariant under vertex rotation/reversal/translation; that a simple polygon's interior points lie "
-                    "in an odd number of fan triangles (Jordan / triangulation) is not proved"],
+                    "a fan of triangles and invariant under vertex rotation/reversal/translation, and every convex polygon (any number of vertices) "
+                    "is proved to contain its interior points (crossing test 1) and to exclude every point separated from the vertices by a line "
+                    "(crossing test 0), i.e. mask = point-in-polygon for convex polygons in general position; not proved: that a non-convex "
+                    "simple polygon's interior points lie in an odd number of fan triangles (Jordan / "
+                    "triangulation)"],
     })
     ctx.coverage["samples"] = [C.meta[0], next((m for m in C.meta if m["family"] == "periodic"), C.meta[-1])]
     ctx.grep_gate()
